@@ -391,9 +391,13 @@ def lexer_tie(ctx, texts):
     # a comment behind the line (SCP.Lex.comment_irrelevant): hostile comment texts
     lines = [t + rng.choice(["", "", " # note", "#1+1", " # may 5 $3 [NUMBER:1] = x", "  ## 2 * 3", " #"]) for t in lines]
     ops, req, idx = [], [], []
-    for (dec, thou) in CONVS:
-        ops.append({"op": "cfg", "dec": dec, "thou": thou})
-        for t in lines:
+    # every convention is reached from the default configuration, by the two setters in either order (the second order on a part
+    # of the lines): what an arithmetic line means does not depend on how the calculator got its separators
+    passes = [(d_, t_, "dec-first", lines) for (d_, t_) in CONVS] + [(d_, t_, "thou-first", lines[:ctx.n(150, 2000)]) for (d_, t_) in CONVS]
+    for (dec, thou, order_, lines_) in passes:
+        ops.append({"op": "cfg", "dec": ",", "thou": "."})
+        ops.append({"op": "cfg", "dec": dec, "thou": thou, "order": order_})
+        for t in lines_:
             t2 = t if (dec, thou) == (",", ".") else t.replace(",", "\x00").replace(".", thou or "").replace("\x00", dec) if rng.random() < 0.5 else t
             ops.append({"op": "lex", "lang": "en", "text": t2})
             req.append(f"codelex\t{wire.hx(dec)}\t{wire.hx(thou)}\t{wire.hx(t2)}")
